@@ -241,7 +241,7 @@ func genContent(t *rapid.T, w string) []byte {
 		}
 		return b
 	}
-	kind := rapid.IntRange(0, 11).Draw(t, "ckind")
+	kind := rapid.IntRange(0, 12).Draw(t, "ckind")
 	if w == "CODE128" && rapid.Bool().Draw(t, "c128") {
 		// digits, letters, controls and the FNC1..FNC4 escape characters in short mixtures
 		n := rapid.IntRange(1, 12).Draw(t, "n128")
@@ -325,6 +325,15 @@ func genContent(t *rapid.T, w string) []byte {
 		return b
 	case 9: // wrong characters for 1-D
 		return []byte("12345-ABC$/+%. *")
+	case 12: // decimal digits of other scripts (valid UTF-8, not ASCII), alone or mixed with ASCII digits
+		pools := [][]rune{[]rune("٠١٢٣٤٥٦٧٨٩"), []rune("０１２３４５６７８９"), []rune("०१२३४५६७८९"), []rune("0123456789٣５")}
+		pool := pools[rng.Intn(len(pools))]
+		n := rapid.IntRange(1, 30).Draw(t, "nforeign")
+		var sb strings.Builder
+		for i := 0; i < n; i++ {
+			sb.WriteRune(pool[rng.Intn(len(pool))])
+		}
+		return []byte(sb.String())
 	case 10: // guards / escapes
 		return []byte([]string{"A", "AB", "A1", "TN", "*", "1+", "%", "$A/", "ññ12", "ò", "abôc"}[rng.Intn(11)])
 	}
